@@ -434,6 +434,18 @@ RETRIEVAL_MARKERS = ("retrieve", "getByLabel", "getByToken", "Handle", "result",
 FETCH_CODE = ("getByToken", "getByLabel", "evtStore()->retrieve", "EDGetTokenT", "consumes<", "Handle<")
 
 
+def _undeclared_fetch_variable(case, err):
+    """g++ stops at an identifier that was 'not declared in this scope' and the identifier is the variable that holds a
+    fetched collection (the translator names it <collection name in lower case><number>): the job uses a collection
+    at a place where it never asked the store for it."""
+    import re
+    m = re.search(r"[‘'](\w+?)(\d+)[’'] was not declared in this scope", err or "")
+    if not m:
+        return False
+    names = {o["coll"].lower() for o in case["query"]["occurrences"]}
+    return m.group(1) in names
+
+
 def _build_only(case):
     work = tempfile.mkdtemp(prefix="n-", dir=_scratch)
     try:
@@ -478,7 +490,7 @@ def _execute_inner(case):
         if exe is None:
             if status == "uncompilable":
                 res["stats"]["blocked:" + case["backend"]] = 1
-                if case["prop"] == "C06" and any(m in (err or "") for m in FETCH_CODE):
+                if case["prop"] == "C06" and (any(m in (err or "") for m in FETCH_CODE) or _undeclared_fetch_variable(case, err)):
                     # the statements that fetch a collection (or declare / initialise its token) are not C++:
                     # the job cannot ask the store for what the query names
                     res["violations"].append({"property": "C06", "invariant": "retrieval-contract",
